@@ -494,6 +494,21 @@ fn walk(rec: &mut Rec, rng: &mut Rng) {
     }
 }
 
+/// Offsets for `Time` values. A `Time` accepts any `Offset::Fixed(i32)` (the variant is public and `Time::set_offset`
+/// has no range to guard), and "every Time obtainable through the public API" includes those: one case in eight
+/// carries an offset of a day or more, up to the i32 extremes.
+fn gen_toffset(rng: &mut Rng) -> i32 {
+    if rng.chance(1, 8) {
+        match rng.below(3) {
+            0 => *rng.pick(&[86_400i32, -86_400, 86_401, -86_401, 172_800, -172_800, 200_000, -200_000, i32::MAX, i32::MIN, i32::MIN + 1, i32::MAX - 1]),
+            1 => rng.next() as i32,
+            _ => rng.range_i64(-1_000_000, 1_000_000) as i32,
+        }
+    } else {
+        gen_offset(rng)
+    }
+}
+
 pub fn run(ctx: &Ctx) -> PropResult {
     let bt = boundary_times();
     let mut wls = vec![];
@@ -507,7 +522,7 @@ pub fn run(ctx: &Ctx) -> PropResult {
             let m = rng.below(12) as usize;
             let (_, unit, dir) = TMETHODS[m];
             let (c, stratum) = gen_count(rng, 0, unit, dir);
-            judge_method(rec, n, gen_offset(rng), m, c, stratum);
+            judge_method(rec, n, gen_toffset(rng), m, c, stratum);
         }
     }));
     wls.push(Workload::cases("time_methods_random", ctx.count(200_000, 6_000_000), |rec, idx, rng| {
@@ -515,18 +530,18 @@ pub fn run(ctx: &Ctx) -> PropResult {
         let m = (idx % 12) as usize;
         let (_, unit, dir) = TMETHODS[m];
         let (c, stratum) = gen_count(rng, 0, unit, dir);
-        judge_method(rec, n, gen_offset(rng), m, c, stratum);
+        judge_method(rec, n, gen_toffset(rng), m, c, stratum);
     }));
     let nb = bt.len() as u64;
     let btr = &bt;
     wls.push(Workload::cases("time_binops_all_boundary_pairs", nb * nb, move |rec, idx, rng| {
         let (a, b) = (btr[(idx / nb) as usize], btr[(idx % nb) as usize]);
-        let (o1, o2) = (gen_offset(rng), gen_offset(rng));
+        let (o1, o2) = (gen_toffset(rng), gen_toffset(rng));
         judge_time_time(rec, a, b, o1, o2, false, idx % 5 == 0);
         judge_time_time(rec, a, b, o1, o2, true, idx % 5 == 1);
     }));
     wls.push(Workload::cases("time_binops_random", ctx.count(60_000, 2_000_000), |rec, idx, rng| {
-        judge_time_time(rec, gen_time_nanos(rng), gen_time_nanos(rng), gen_offset(rng), gen_offset(rng), idx % 2 == 1, idx % 8 >= 6);
+        judge_time_time(rec, gen_time_nanos(rng), gen_time_nanos(rng), gen_toffset(rng), gen_toffset(rng), idx % 2 == 1, idx % 8 >= 6);
     }));
     wls.push(Workload::cases("time_duration_ops", ctx.count(100_000, 3_000_000), |rec, idx, rng| {
         let n = gen_time_nanos(rng);
@@ -548,7 +563,7 @@ pub fn run(ctx: &Ctx) -> PropResult {
                 (Duration::new(x / 1_000_000_000, (x % 1_000_000_000) as u32), "dur/back-to-midnight±1ns")
             }
         };
-        judge_time_duration(rec, n, gen_offset(rng), d, idx % 2 == 1, idx % 8 >= 6, stratum);
+        judge_time_duration(rec, n, gen_toffset(rng), d, idx % 2 == 1, idx % 8 >= 6, stratum);
     }));
     wls.push(Workload::cases("constructors_grid", 1, |rec, _, _| {
         let hs = [0u32, 1, 12, 22, 23, 24, 25, 59, 60, 255, 256, 1 << 16, 1_193_046, (1 << 31) - 1, 1 << 31, u32::MAX - 1, u32::MAX];
